@@ -21,7 +21,7 @@ from lib.common import enc_list, enc_str, dec_str
 # documents
 # ------------------------------------------------------------------------------------------------
 LEAVES_SMALL = [1, "x", ' q"u ', True, None, [], {}]
-LEAVES = LEAVES_SMALL + [0, 12, -5, "a\\b", "it's", "12", "true", False, "Zed", ""]
+LEAVES = LEAVES_SMALL + [3000000000, 40000, 200, 0, 12, -5, "a\\b", "it's", "12", "true", False, "Zed", ""]
 KEYS = ["a", "b", "S", "a b"]
 SEGS = ["a", "b", "S", "a b", 0, 1, 2]
 
@@ -69,7 +69,9 @@ def typed_doc(rnd):
     return {
         "a": {"b": [rnd.choice([0, 1, 2, 7, -3]), rnd.choice(["x", "y", ' q"u ', "Zed", "it's"]), None, rnd.choice([True, False])]},
         "s": rnd.choice(["x", ' q"u ', "Zed", "a\\b", "", "x y"]),
-        "n": rnd.choice([0, 1, 5, None]),
+        "n": rnd.choice([0, 1, 5, None, 200, 40000]),
+        "big": rnd.choice([3000000000, 2147483648, 40000]),
+        "i31": 2147483647,
         "f": rnd.choice([True, False, None]),
         "e": rnd.choice([[], [1], [1, "x"], [[], {}]]),
         "t": rnd.choice(["12", "7", "-3"]),
@@ -178,6 +180,8 @@ def to_E(node) -> list[str]:
     if isinstance(node, exp.Column):
         if node.name.upper() == "V" and not node.table:
             return ["C"]
+        if node.name.upper() == "VALUE" and node.table.upper() == "F":
+            return ["F"]
         raise Unsupported("column")
     if isinstance(node, exp.ParseJSON):
         if isinstance(node.this, exp.Literal):
@@ -215,7 +219,7 @@ def to_E(node) -> list[str]:
             raise Unsupported("sized type")
         if t in (T.VARCHAR, T.TEXT):
             return ["Ct"] + to_E(node.this)
-        if t in (T.INT, T.BIGINT):
+        if t in (T.INT, T.BIGINT, T.SMALLINT, T.TINYINT):
             return ["Ci"] + to_E(node.this)
         if t == T.BOOLEAN:
             return ["Cb"] + to_E(node.this)
@@ -330,7 +334,7 @@ def render_use(rnd, acc: str, use: str) -> str:
     if use == "text":
         return rnd.choice([f"{acc}::varchar", f"{acc}::string", f"cast({acc} as varchar)", f"{acc}::text"])
     if use == "int":
-        return rnd.choice([f"{acc}::int", f"cast({acc} as integer)", f"{acc}::bigint"])
+        return rnd.choice([f"{acc}::int", f"cast({acc} as integer)", f"{acc}::bigint", f"{acc}::integer", f"{acc}::smallint", f"{acc}::tinyint"])
     if use == "bool":
         return rnd.choice([f"{acc}::boolean", f"cast({acc} as boolean)"])
     if use == "upper":
@@ -350,7 +354,8 @@ def render_use(rnd, acc: str, use: str) -> str:
 def typed_atoms(rnd):
     i = rnd.choice([0, 1, 2, 3, 5])
     atoms = [
-        ("{v}:a.b[0]::int", "int"), ("{v}:n::int", "int"), ("{v}:t::int", "int"), ("array_size({v}:e)", "size"),
+        ("{v}:a.b[0]::int", "int"), ("{v}:n::int", "int"), ("{v}:t::int", "int"), ("array_size({v}:e)", "size"), ("{v}:n::smallint", "int"), ("{v}:n::tinyint", "int"),
+        ("{v}:n::integer", "int"), ("{v}:big::int", "int"), ("{v}:big::integer", "int"), ("{v}:i31::int", "int"), ("{v}:i31::integer", "int"), ("{v}:big::bigint", "int"),
         (str(rnd.randint(0, 9)), "int"), (f"{{v}}:a.b[{i}]::int", "int"),
         ("{v}:a.b[1]::varchar", "text"), ("upper({v}:s)", "text"), ("lower({v}:a.b[1])", "text"), ("trim({v}:s)", "text"),
         ("{v}:s::varchar", "text"), (sql_str(rnd.choice(["x", "Zed", ' q"u ', "ZED", "p"])), "text"),
@@ -590,7 +595,7 @@ def verdict(chk, reply, real, case, what, broken):
 def build(chk):
     rnd = random.Random(chk.seed)
     quick = chk.tier == "quick"
-    gdocs = exhaustive_docs() + [rand_doc(rnd) for _ in range(16 if quick else 120)]
+    gdocs = exhaustive_docs() + [rand_doc(rnd) for _ in range(16 if quick else 80)]
     tdocs = [typed_doc(rnd) for _ in range(30 if quick else 100)]
     # objects whose keys are made only of digits, next to arrays: a QUOTED subscript navigates by key, an integer one by position
     gdocs += [{"2024": 1, "0": "z", "7": [1, {"0": "q"}], "00": 5, "a": {"0": "in", "1": [7]}}, [10, 20, {"0": "k"}], {"0": [1, 2]}, {"a": ["p", "q"]}, ["s0", "s1"]]
@@ -645,7 +650,7 @@ def build(chk):
                     continue
                 exprs.append(("tn", e, "nested:" + ("two-level" if inner.count("parse_json") > 1 else "one-level")))
     # operator contexts over the typed documents
-    for _ in range(260 if quick else 3000):
+    for _ in range(260 if quick else 2000):
         ty = rnd.choice(["bool", "bool", "bool", "int", "text"])
         sql, _ = gen_ctx(rnd, ty, rnd.randint(1, 3))
         exprs.append(("tt", sql, f"ctx:{ty}"))
@@ -765,6 +770,37 @@ def build_small(chk, rnd, tasks, meta):
                 sql = f"select {proj} from {src}"
                 tasks.append(("rows", sql))
                 meta.append({"kind": "flatten", "sql": sql, "line": f"json\tflatten\t{enc_json(d)}\t{mode}", "tag": "flatten:" + mode})
+    # spelled-out FLATTEN arguments; empty / missing arrays
+    for d in [[], [1, "x"], None, ["only"], [None]]:
+        for extra, mode in ((", outer => false", "value"), (", outer => true", "outer"), (", recursive => false", "value"), (", mode => 'ARRAY'", "value"),
+                            (", outer => false, recursive => false, mode => 'ARRAY'", "value"), (", outer => TRUE, mode => 'ARRAY'", "outer")):
+            wrapped = dumps({"w": d, "k": 1})
+            for src, dd in ((f"(select parse_json({sql_str(wrapped)}) as a) s, lateral flatten(input => s.a:w{extra}) f", d),
+                            (f"(select parse_json({sql_str(wrapped)}) as a) s, lateral flatten(input => s.a:missing{extra}) f", None),
+                            (f"lateral flatten(input => parse_json({sql_str(dumps(d))}){extra}) f", d)):
+                sql = f"select f.value from {src}"
+                tasks.append(("rows", sql))
+                meta.append({"kind": "flatten", "sql": sql, "line": f"json\tflatten\t{enc_json(dd)}\t{mode}", "tag": "flatten:args:" + mode})
+    # expressions over f.value (strings with padding / quotes / case), per element, in the select list and in WHERE
+    fexprs = ["trim(f.value)", "upper(f.value)", "lower(f.value)", "f.value::varchar", "f.value::string", "trim(f.value::varchar)", "upper(trim(f.value))", "trim(upper(f.value))",
+              "lower(f.value::varchar)", "trim(f.value) = 'padded'", "f.value::varchar = ' padded '", "upper(f.value::varchar) = 'X'", "f.value is null", "f.value",
+              "trim(f.value) || '!'", "f.value::int", "f.value::smallint + 1", "not f.value::boolean"]
+    farrs = [[" padded ", "x", ' Pad"x ', "MiXed", None, "a\\b"], ["padded"], [], [1, 200, 40000, 3000000000], [True, False, None], [" x ", 5, True, [1], {"k": "v"}]]
+    for arr in farrs:
+        lit = f"parse_json({sql_str(dumps(arr))})"
+        for fe in fexprs:
+            try:
+                toks = parse_expr(fe)
+            except Exception:
+                chk.count("skipped_unparsed:flatexpr")
+                continue
+            for src in (f"lateral flatten(input => {lit}) f", f"(select {lit} as a) s, lateral flatten(input => s.a) f"):
+                sql = f"select {fe} from {src}"
+                tasks.append(("rows", sql))
+                meta.append({"kind": "flatexpr", "sql": sql, "arr": arr, "E": enc_list(toks), "tag": "flatten:value-expr", "where": False})
+            sql = f"select count(*) from lateral flatten(input => {lit}) f where {fe}"
+            tasks.append(("one", sql))
+            meta.append({"kind": "flatexpr", "sql": sql, "arr": arr, "E": enc_list(toks), "tag": "flatten:value-expr:where", "where": True})
     for sv, sep in [('a b,c"d,it\'s', ","), ("x", ","), ("", ","), ("a;;b", ";")]:
         pieces = sv.split(sep)
         for mode, proj in (("value", "f.value"), ("text", "f.value::varchar"), ("text", "f.value::string")):
@@ -809,6 +845,10 @@ def model_lines(tables, meta):
             with_env = ";J;" in (";" + m["E"] + ";") or m["E"].startswith("J;")
             lines.append(f"json\teval\t{enc_json(m['doc'])}\t{m['E']}" + (f"\t{enc_env(parse_env(m['doc']))}" if with_env else ""))
             index.append((mi, None))
+        elif m["kind"] == "flatexpr":
+            for ei, el in enumerate(m["arr"]):
+                lines.append(f"json\teval\t{enc_json(el)}\t{m['E']}")
+                index.append((mi, ei))
         elif m.get("line"):
             lines.append(m["line"])
             index.append((mi, None))
@@ -844,6 +884,10 @@ def judge(chk, tables, meta, reals, replies, index):
             if v != "skip":
                 chk.case((m["sql"],), nontrivial=rep.get("spec", "N") != "N")
                 chk.count("literal")
+        elif kind == "flatexpr":
+            reps = [r for _, r in sorted(by_meta.get(mi, []), key=lambda t: t[0])]
+            case = {"kind": "flatexpr", "sql": m["sql"], "arr": m["arr"], "E": m["E"], "where": m["where"]}
+            judge_flatexpr(chk, m, real, reps, case)
         elif kind in ("obj", "arr", "flatten"):
             (_, rep), = by_meta[mi]
             rep = dict(rep)
@@ -882,6 +926,49 @@ def judge(chk, tables, meta, reals, replies, index):
             if real != "N":
                 chk.violation(f"`{m['sql']}` returned {real!r}, TRY_PARSE_JSON of malformed text is NULL", {"kind": "parse_bad", "sql": m["sql"]},
                               broken="TRY_PARSE_JSON (oracle)")
+
+
+def judge_flatexpr(chk, m, real, reps, case):
+    """an expression over f.value: one model evaluation per element (the element is the document)"""
+    if any(r.get("_raw") == "unsupported" or "spec" not in r for r in reps):
+        chk.count("skipped_unsupported")
+        return
+    chk.case((m["sql"],), nontrivial=len(reps) > 0)
+    chk.count(m["tag"])
+    keys = sorted({k for r in reps for k in (r["finding"].split(",") if r["finding"] != "-" else [])})
+    what = f"`{m['sql']}`"
+    if m["where"]:
+        def count(field):
+            vals = [r[field] for r in reps]
+            if any(v.startswith("E") for v in vals):
+                return next(v for v in vals if v.startswith("E"))
+            if any(v not in ("B0", "B1", "N") for v in vals):
+                return None
+            return f"I{sum(v == 'B1' for v in vals)}"
+        spec, impl = count("spec"), count("impl")
+        if spec is None:
+            chk.count("skipped_unsupported")
+            return
+        ok_spec, ok_impl = real == spec, impl is not None and real == impl
+    else:
+        def rows(field):
+            vals = [r[field] for r in reps]
+            if any(v.startswith("E") for v in vals):
+                return next(v for v in vals if v.startswith("E"))
+            return "R" + ",".join(vals)
+        spec, impl = rows("spec"), rows("impl")
+        ok_spec, ok_impl = model_obs_matches(spec, real), model_obs_matches(impl, real)
+    if ok_spec:
+        if not keys and impl != spec:
+            chk.violation(f"model inconsistency for {what}: impl {impl} ≠ spec {spec}", case, broken="C11_flatten_value_text (model)", failing_input=False)
+        return
+    if keys and ok_impl:
+        known = [k for k in keys if k in chk.known]
+        chk.finding(known[0] if known else keys[0], f"{what}: got {real!r}, required {show(spec)}", case)
+        return
+    chk.violation(f"{what}: fakesnow returned {real!r} but converting each element of {dumps(m['arr'])} requires {show(spec)} "
+                  f"(model of the code predicts {show(impl) if impl else impl}; finding region: {','.join(keys) or '-'})", case,
+                  broken="C11_flatten_value_text / C11_order_flatten_value (correspondence with evalDuck ∘ pipelineAll per element)")
 
 
 def _json_eq(text: str, want) -> bool:
@@ -958,6 +1045,10 @@ def replay(chk, case) -> None:
             what = f"`{case['sql']}`"
         rep = common.batch([f"json\teval\t{enc_json(case['doc'])}\t{case['E']}\t{enc_env(parse_env(case['doc']))}"])[0]
         verdict(chk, rep, real, case, what, "C11_partial/C11_nav (correspondence with evalDuck ∘ pipeline)")
+    elif kind == "flatexpr":
+        real = _worker(({}, [("one" if case["where"] else "rows", case["sql"])]))[0]
+        reps = common.batch([f"json\teval\t{enc_json(el)}\t{case['E']}" for el in case["arr"]]) if case["arr"] else []
+        judge_flatexpr(chk, {"sql": case["sql"], "arr": case["arr"], "tag": "flatten:value-expr", "where": case["where"]}, real, reps, case)
     elif kind in ("obj", "arr", "flatten"):
         real = _worker(({}, [("rows" if kind == "flatten" else "one", case["sql"])]))[0]
         rep = dict(common.batch([case["line"]])[0])
